@@ -278,6 +278,9 @@ fn hex(s: &str) -> String {
 // HTTP
 
 fn http(port: u16, method: &str, path: &str) -> Result<(u16, Vec<u8>), String> {
+    if std::env::var("C19_DEBUG").is_ok() {
+        eprintln!("{:?} {} {}", Instant::now(), method, path);
+    }
     let addr: SocketAddr = format!("127.0.0.1:{}", port).parse().unwrap();
     let mut s = TcpStream::connect_timeout(&addr, Duration::from_secs(2)).map_err(|e| format!("connect: {}", e))?;
     s.set_read_timeout(Some(Duration::from_secs(8))).ok();
@@ -685,7 +688,7 @@ fn explorer_session(kind: &str, spec: &str, e: &Explicit, bfs: &BfsRef, r: &mut 
         match r.below(6) {
             0 => u.push('/'),
             1 => u.push_str("//"),
-            2 => u = u[1..].to_string(), // no leading slash: "/.states123/456"
+            2 if !u.is_empty() => u = u[1..].to_string(), // no leading slash: "/.states123/456"
             _ => {}
         }
         urls.push((u, None));
@@ -1096,7 +1099,9 @@ fn main() {
     if args.len() > 1 && args[1] == "--child-serve" {
         child_serve(&args[2..]);
     }
-    quiet_panics();
+    if std::env::var("C19_DEBUG").is_err() {
+        quiet_panics();
+    }
     let mut out = Out::new();
     out.max_samples = 8;
     let thorough = thorough();
@@ -1104,6 +1109,18 @@ fn main() {
     let only = arg_str("--only");
     let cfg = GenCfg { max_states: 8, ..GenCfg::default() };
 
+    // debugging aid: one Explorer session for a given GraphModel
+    if let Some(gs) = arg_str("--one") {
+        let g = GraphModel::parse(&gs).expect("graph");
+        let e = explicit_graph(&g).unwrap();
+        let bfs = bfs_reference(g.clone());
+        let em = explorer_session("g", &g.sx(), &e, &bfs, &mut rng, thorough, true);
+        for (k, t) in &em.v {
+            eprintln!("V {} {}", k, t);
+        }
+        eprintln!("m={} o={}", em.m.len(), em.o.len());
+        std::process::exit(0);
+    }
     // ---- Path API ------------------------------------------------------------------------------
     if only.is_none() || only.as_deref() == Some("path") {
         let n_models = if thorough { 1500 } else { 150 };
@@ -1172,7 +1189,10 @@ fn main() {
                     Some(j) => j,
                     None => break,
                 };
-                let em = match job {
+                if std::env::var("C19_DEBUG").is_ok() {
+                    eprintln!("job {} start: {}", idx, match &job { Job::G(g) => g.sx(), Job::A(s) => s.clone() });
+                }
+                let em = std::panic::catch_unwind(std::panic::AssertUnwindSafe(|| match job {
                     Job::G(g) => match explicit_graph(&g) {
                         Some(e) => {
                             let bfs = bfs_reference(g.clone());
@@ -1197,7 +1217,15 @@ fn main() {
                             }
                         }
                     }
-                };
+                }))
+                .unwrap_or_else(|_| {
+                    let mut em = Emit::default();
+                    em.v.push(("harness-panic".into(), format!("Explorer session {} panicked inside the harness", idx)));
+                    em
+                });
+                if std::env::var("C19_DEBUG").is_ok() {
+                    eprintln!("job {} end", idx);
+                }
                 results.lock().unwrap().push((idx, em));
             });
         }
